@@ -127,7 +127,11 @@ func (m *machine) opCreateResource(t *rapid.T) bool {
 	}
 	meta := map[string]any{"name": id.Name, "labels": lbls}
 	if o := rapid.SampledFrom([]string{"", "o1", "o1", "o2"}).Draw(t, "owner"); o != "" {
+		// A composed resource: controlled by the XR stand-in, labelled and annotated
+		// the way the composers render it.
 		meta["ownerReferences"] = []any{m.w.ownerRef(o)}
+		meta["annotations"] = map[string]any{resourceNameAnnotation: templateName(i)}
+		lbls[compositeLabel] = o
 	}
 	obj := verifsim.Obj{"apiVersion": id.Group + "/" + ver, "kind": id.Kind, "metadata": meta, "spec": map[string]any{"v": "1"}}
 	err := m.w.sim.Client("user").Create(context.Background(), verifsim.U(obj))
@@ -252,6 +256,36 @@ func (m *machine) opComposerApply(t *rapid.T) bool {
 	return true
 }
 
+// opComposerGC: the Composition of an XR stops producing some of its composed
+// resources and the XR reconciles (the composers' garbage collection).
+func (m *machine) opComposerGC(t *rapid.T) bool {
+	var owners []string
+	for _, o := range ownerNames {
+		if len(m.w.composedBy(o)) > 0 {
+			owners = append(owners, o)
+		}
+	}
+	if len(owners) == 0 {
+		return false
+	}
+	owner := rapid.SampledFrom(owners).Draw(t, "xr")
+	cds := m.w.composedBy(owner)
+	pipeline := rapid.IntRange(0, 3).Draw(t, "pipelineComposer") == 0
+	drop := map[int]bool{}
+	if pipeline {
+		// The function composer walks a Go map: one dropped resource keeps the run deterministic.
+		drop[rapid.SampledFrom(cds).Draw(t, "dropped")] = true
+	} else {
+		for _, i := range cds {
+			if rapid.IntRange(0, 2).Draw(t, "dropTemplate") > 0 {
+				drop[i] = true
+			}
+		}
+	}
+	m.w.composerGC(owner, drop, rapid.SampledFrom(versions).Draw(t, "version"), pipeline)
+	return true
+}
+
 func (m *machine) nestedStep(t *rapid.T) {
 	op := rapid.SampledFrom([]string{"createUsage", "createUsage", "reconcile", "reconcile", "reconcile", "deleteResource", "deleteUsage", "createResource", "gc"}).Draw(t, "nestedOp")
 	if op == "createUsage" && m.w.raceOpen && m.w.pausedTerminating {
@@ -311,7 +345,7 @@ func wrap(f func(*rapid.T) bool) func(*rapid.T) {
 	}
 }
 
-const machineRule = "rapid state machine over 4 shared cluster-scoped resource identities (2 groups, 2 kinds, 2 served versions) and up to 4 Usages (v1alpha1/v1beta1; of/by by resourceRef, by resourceSelector with matchLabels and matchControllerRef true/false/unset, or both; reason-only; replayDeletion; composed or not): create/delete of resources and Usages in any order, DELETE requests in either version with every propagation policy through usage.yaml's objectSelector/rules and the real handler, real Usage reconciles with 0-2 injected faults, reconciles parked before a drawn API call while 1-3 other actions run, GC steps, composer applies; non-trivial = a DELETE while >=2 Usages name the resource, or in another version than a naming Usage, or while a Ready Usage protects it, or a parked (interleaved) reconcile"
+const machineRule = "rapid state machine over 4 shared cluster-scoped resource identities (2 groups, 2 kinds, 2 served versions) and up to 4 Usages (v1alpha1/v1beta1; of/by by resourceRef, by resourceSelector with matchLabels and matchControllerRef true/false/unset, or both; reason-only; replayDeletion; composed or not): create/delete of resources and Usages in any order, DELETE requests in either version with every propagation policy through usage.yaml's objectSelector/rules and the real handler, real Usage reconciles with 0-2 injected faults, reconciles parked before a drawn API call while 1-3 other actions run, GC steps, the P&T composer's apply of composed Usages, and both composers' garbage collection (real GarbageCollectingAssociator.AssociateTemplates with named templates / real DeletingComposedResourceGarbageCollector) of composed resources whose template was dropped, their Update watched by the marker monitors and their Delete sent through the same admission path; non-trivial = a DELETE while >=2 Usages name the resource, or in another version than a naming Usage, or while a Ready Usage protects it, or a parked (interleaved) reconcile, or a composer GC of a protected resource"
 
 // TestVerifC19Machine is the main check: all four clauses over generated histories.
 func TestVerifC19Machine(t *testing.T) {
@@ -333,6 +367,7 @@ func TestVerifC19Machine(t *testing.T) {
 			"reconcileInterleaved": wrap(m.opReconcileInterleaved),
 			"gc":                   wrap(m.opGC),
 			"composerApply":        wrap(m.opComposerApply),
+			"composerGC":           wrap(m.opComposerGC),
 			"":                     func(*rapid.T) { w.checkMonitors("invariant") },
 		})
 		if w.nontrivial {
@@ -460,6 +495,32 @@ func TestVerifC19Pinned(t *testing.T) {
 		rec.NonTrivial("composed-v1alpha1", func() any { return w.hist })
 		if len(*vios) > 0 {
 			t.Fatalf("%s", strings.Join(*vios, "\n"))
+		}
+	})
+	t.Run("composer-gc-of-a-protected-resource", func(t *testing.T) {
+		// Class raised by a seeded change: the composers' garbage collection (label
+		// cleanup Update, then Delete) of a composed resource whose template was
+		// dropped, while a Ready Usage names it. The cleanup must leave the marker
+		// alone and the Delete must be refused and recorded like anybody else's.
+		for _, pipeline := range []bool{false, true} {
+			rec.Eval()
+			w, vios := collectingWorld(rec)
+			r := thing(idents[0], "v1")
+			verifsim.Meta(r)["ownerReferences"] = []any{w.ownerRef("o1")}
+			verifsim.Meta(r)["annotations"] = map[string]any{resourceNameAnnotation: templateName(0)}
+			verifsim.Meta(r)["labels"].(map[string]any)[compositeLabel] = "o1"
+			w.mustCreate(r)
+			w.mustCreate(w.renderUsage(usageSpec{Name: "u0", APIVer: "v1beta1", Of: resRef{ID: 0, Ver: "v1", ByName: true}, Reason: true}))
+			w.reconcile("u0", nil)
+			w.composerGC("o1", map[int]bool{0: true}, "v1", pipeline)
+			after := w.sim.Get(idents[0].key())
+			if len(*vios) > 0 {
+				t.Fatalf("pipeline=%v: %s", pipeline, strings.Join(*vios, "\n"))
+			}
+			if after == nil || !w.markerPresent(after) || verifsim.Annotations(after)[attemptAnnotation] != "Background" {
+				t.Fatalf("harness: pipeline=%v: the scripted composer GC did not exercise the protected path: %v", pipeline, after)
+			}
+			rec.NonTrivial(fmt.Sprintf("composer-gc-%v", pipeline), func() any { return w.hist })
 		}
 	})
 	t.Run("used-resource-replaced-while-reconcile-in-flight", func(t *testing.T) {
